@@ -282,6 +282,13 @@ def run_history(mon, base, hid, steps, names, sh, snapshots_out=None):
     src = os.path.join(root, "src")
     for d in (layers, os.path.join(root, "app"), os.path.join(root, "bp"), src):
         os.makedirs(d)
+    # the layers directory as the platform names it: plainly, through a symbolic link, or with '.' / '..' segments
+    style = sum(map(ord, str(hid))) % 3
+    if style == 0:
+        os.symlink("layers", os.path.join(root, "layers-link"))
+        layers = os.path.join(root, "layers-link")
+    elif style == 1:
+        layers = os.path.join(root, "app", "..", ".", "layers")
     for p in ("p1", "p2", "p3"):
         with open(os.path.join(src, p), "wb") as f:
             f.write(b"#!/bin/sh\necho " + p.encode() + b"\n")
@@ -325,6 +332,100 @@ def run_history(mon, base, hid, steps, names, sh, snapshots_out=None):
         vp.rmtree(root)
 
 
+def run_mixed(mon, base, hid, steps, names, sh):
+    """a history that uses BOTH layer APIs on the same layer names: trait-API steps are judged by this module's model, struct-API
+    requests and LayerRef writes by C01's - both predict from the snapshot taken before the step, so they compose"""
+    import c01
+    root = os.path.join(base, "m%s" % hid)
+    layers = os.path.join(root, "layers")
+    src = os.path.join(root, "src")
+    for d in (layers, os.path.join(root, "app"), os.path.join(root, "bp"), src):
+        os.makedirs(d)
+    for p in ("p1", "p2", "p3"):
+        with open(os.path.join(src, p), "wb") as f:
+            f.write(b"#!/bin/sh\necho " + p.encode() + b"\n")
+        os.chmod(os.path.join(src, p), {"p1": 0o755, "p2": 0o775, "p3": 0o700}[p])
+    case = {"mixed": True, "hid": hid, "names": names, "_layers": layers, "umask": UMASK, "seed_note": "mixed histories are regenerated from VERIF_SEED and their index"}
+    alive = set()
+    try:
+        mon.call({"op": "init", "layers_dir": layers, "app_dir": os.path.join(root, "app"), "bp_dir": os.path.join(root, "bp")})
+        pre = vp.snapshot(layers)
+        for i, step in enumerate(steps):
+            case["failing_step"] = i
+            case["step_ops"] = [x["op"] + ":" + x.get("name", "") for x in steps[:i + 1]]
+            op = step["op"]
+            if op == "restore":
+                layersim.restore(layers, names)
+                mon.call({"op": "drop_refs"})
+                alive.clear()
+                pre = vp.snapshot(layers)
+                continue
+            if op == "fs_write":
+                continue
+            if op == "handle":
+                # metadata written through the struct API may carry keys the trait implementation's metadata type does not know;
+                # it then parses (serde ignores unknown fields) and a kept layer is rewritten without them. Whether "keep" has to
+                # preserve such foreign keys is outside this property's quantifier (sequences of handle-layer calls): not exercised.
+                t0 = layersim.view(pre, step["name"])["toml"]
+                try:
+                    md0 = layersim.parse_toml(t0)[1] if isinstance(t0, bytes) else None
+                except Exception:  # noqa: BLE001
+                    md0 = None
+                own = {"v1": {"v"}, "v2": {"version"}, "defaults": {"v"}}.get(step["impl"], set())
+                if isinstance(md0, dict) and own & set(md0) and set(md0) - own:
+                    sh.count("mixed_steps_skipped_foreign_metadata_keys")
+                    continue
+                rep = mon.call(enc_step(step, src))
+                post = vp.snapshot(layers)
+                sh.evaluations += 1
+                action = judge(step, rep, pre, post, names, layers, src, sh, case)
+                if action is None:
+                    return
+                if action == "error":
+                    for suf in ["", ".toml"] + [x.decode() for x in layersim.SBOM_SUFFIX.values()]:
+                        vp.rmtree(os.path.join(layers, step["name"] + suf))
+                    alive.discard(step["name"])
+                    post = vp.snapshot(layers)
+                sh.nontrivial.add(("mixed", "trait", abstract_state(layersim.view(pre, step["name"]), step["impl"])[:3], action))
+            elif op in ("cached", "uncached"):
+                rep = mon.call(c01.enc_step(step, src))
+                post = vp.snapshot(layers)
+                sh.evaluations += 1
+                got = c01.judge_request(step, rep, pre, post, names, sh, case)
+                if got is None:
+                    return
+                (alive.discard if got[0] == "error" else alive.add)(step["name"])
+                sh.nontrivial.add(("mixed", "struct", op, got[0]))
+            else:
+                if step["name"] not in alive:
+                    continue
+                rep = mon.call(c01.enc_step(step, src))
+                if rep.get("no_ref"):
+                    continue
+                post = vp.snapshot(layers)
+                sh.evaluations += 1
+                if not c01.judge_write(step, rep, pre, post, names, src, sh, case):
+                    return
+            pre = post
+        sh.count("mixed_histories")
+    finally:
+        vp.rmtree(root)
+
+
+def mixed_history(r, length):
+    import c01
+    mine = NAMES[:3] if r.random() < 0.5 else r.sample(NAMES, 3)
+    a = [x for x in c01.random_history(r, length) if x["op"] != "fs_write"]
+    steps = []
+    for x in a:
+        if "name" in x:
+            x["name"] = mine[NAMES.index(x["name"]) % 3] if x["name"] in NAMES else mine[0]
+        steps.append(x)
+        if r.random() < 0.45:
+            steps.append(concrete(r.choice([y for y in SYMS if y not in ("Rst",)]), r, r.choice(mine)))
+    return steps
+
+
 def random_history(r, length):
     steps = []
     mine = NAMES[:3] if r.random() < 0.4 else r.sample(NAMES, 3)
@@ -350,10 +451,15 @@ def shard_run(arg):
             r = vp.rng(seed, "c02", kind, idx)
             if kind == "enum":
                 steps, names = [concrete(s, r) for s in item], ["a", "a.b"]
+            elif kind == "mixed":
+                steps, names = mixed_history(r, item), NAMES
             else:
                 steps, names = random_history(r, item), NAMES
             try:
-                run_history(mon, base, "%s%d" % (kind[0], idx), steps, names, sh)
+                if kind == "mixed":
+                    run_mixed(mon, base, "%d" % idx, steps, names, sh)
+                else:
+                    run_history(mon, base, "%s%d" % (kind[0], idx), steps, names, sh)
             except vp.ExecutorDied as e:
                 # the process running the library call died (abort / stack overflow / panic inside the call): that is behaviour of
                 # the code under test, witnessed by the history that led to it
@@ -376,6 +482,10 @@ def run(tier, seed, work):
     nrand = 1200 if tier == "quick" else 6000
     rnd = [(i, r.randint(5, 20 if tier == "quick" else 40)) for i in range(nrand)]
     shards = [("enum", s, seed, work) for s in vp.split(hs, vp.NCPU * 2)] + [("rand", s, seed, work) for s in vp.split(rnd, vp.NCPU)]
+    # histories that mix the struct API (C01's subject) and the trait API on the same layers
+    nmixed = 600 if tier == "quick" else 5000
+    mixed = [(10 ** 6 + i, r.randint(4, 14 if tier == "quick" else 30)) for i in range(nmixed)]
+    shards += [("mixed", s, seed, work) for s in vp.split(mixed, vp.NCPU)]
     for d in vp.pmap(shard_run, shards):
         res.merge(d)
     res.exhaustive = True
